@@ -62,9 +62,14 @@ def generate(gen, tier):
             t = [A('T'), t, gen.leaf(0)]
         so, si = [A('structure'), cfg, outer], [A('structure'), cfg_i, inner]
         fid = rng.choice([1, 2, 5, 6])
+        if ns in ('a', 'b') and rng.random() < 0.5:
+            # the mapped function returns a node registered in the namespace only (the outer tree need not contain one)
+            fid = rng.choice([7 if ns == 'a' else 8, 9])
         variant = rng.choice(['plain', 'path', 'acc'])
         lines = [op('transpose', cfg, so, si, t),
                  op('transpose_map', A(variant), cfg, fid, A('-'), outer),
+                 op('transpose_map', A(rng.choice(['plain', 'path', 'acc'])), cfg, rng.choice([7, 8, 9]), A('-'), outer,
+                    relabel_leaves(gen, outer)),
                  op('transpose_map', A('plain'), cfg, 6, [A('structure'), cfg, [A('D'), [[A('s'), 'a'], [A('l'), gen.leaf(0), A('N')]], [[A('s'), 'b'], gen.leaf(0)]]], outer)]
         cases.append({'lines': lines, 'o': {'cfg': render(cfg), 'cfg_i': render(cfg_i), 'outer': render(outer),
                                             'inner': render(inner), 'tree': render(t), 'class': cls}})
@@ -160,4 +165,24 @@ def oracle(impl, o):
                                       'want': repr(s1)[:200], 'got': repr(s2)[:200]})
                     if len(calls) != m:
                         fails.append({'key': 'transpose-map-calls', 'what': 'f not called once per outer leaf'})
+            # the inner structure inferred from the first result (all three variants) = the given one
+            if want[0] == 'ok' and parse(o['cfg'])[2] == parse(o['cfg_i'])[2]:
+                for name in ('tree_transpose_map', 'tree_transpose_map_with_path', 'tree_transpose_map_with_accessor'):
+                    cnt = []
+
+                    def f3(*xs):
+                        cnt.append(xs)
+                        return inner.unflatten([Lf(-1 - k) for k in range(n)])
+                    goti = outcome(lambda: getattr(optree, name)(f3, outer_t, **kw))
+                    if goti[0] != 'ok':
+                        fails.append({'key': 'transpose-map-inferred-raises', 'what': f'{name} without inner_treespec raised {goti[1]}: {goti[2]}'})
+                        continue
+                    s3 = optree.tree_structure(goti[1], **kwt)
+                    s1 = optree.tree_structure(want[1], **kwt)
+                    if not (s1 == s3):
+                        fails.append({'key': 'transpose-map-inferred-structure',
+                                      'what': f'{name} with the inner structure taken from the first result is not shaped inner-of-outer',
+                                      'want': repr(s1)[:200], 'got': repr(s3)[:200]})
+                    if len(cnt) != m:
+                        fails.append({'key': 'transpose-map-calls', 'what': f'{name}: f not called once per outer leaf'})
     return fails
